@@ -2,6 +2,7 @@ package main
 
 import (
 	"verif/harness/mon/c03"
+	"verif/harness/mon/c04"
 	"verif/harness/mon/c05"
 	"verif/harness/mon/c06"
 	"verif/harness/mon/c07"
@@ -20,6 +21,8 @@ import (
 
 func init() {
 	register("C03", c03.Run)
+	register("C04", c04.Run)
+	children["c04"] = c04.Child
 	register("C05", c05.Run)
 	register("C06", c06.Run)
 	register("C07", c07.Run)
